@@ -120,6 +120,25 @@ M = [
      "                    read_chars = np.concatenate(read_chars)\n                    read_quals = np.concatenate(read_quals)",
      "                    read_chars = np.concatenate(read_chars[:2])\n                    read_quals = np.concatenate(read_quals[:2])",
      "a pool uses only its first two members' reads"),
+    ("cli_assemble_inbreeding_dropped", "C01", "mchap/application/assemble.py",
+     "                        inbreeding=data.sample_inbreeding[sample],\n", "",
+     "mchap assemble constructs its sampler without the sample's inbreeding coefficient (library untouched): cli flavour"),
+    ("cli_call_exact_ignores_prior_mode_path", "C02", "mchap/application/call_exact.py",
+     "                        frequencies=prior_frequencies,\n                        return_support_prob=True,", "                        return_support_prob=True,",
+     "call-exact's low-memory path ignores --prior-frequencies: call and call-exact no longer estimate the same posterior"),
+    ("cli_call_inbreeding_dropped", "C02", "mchap/application/call.py",
+     "                        inbreeding=data.sample_inbreeding[sample],\n", "",
+     "mchap call constructs its sampler without the sample's inbreeding coefficient"),
+    ("cli_assemble_burn_ignored", "C14", "mchap/application/assemble.py",
+     "                    .burn(self.mcmc_burn)\n", "                    .burn(0)\n",
+     "mchap assemble summarises the whole trace instead of removing --mcmc-burn steps"),
+    ("cli_fix_homozygous_not_forwarded", "C15", "mchap/application/assemble.py",
+     "                        fix_homozygous=self.mcmc_fix_homozygous,\n", "",
+     "--mcmc-fix-homozygous never reaches the sampler"),
+    ("handles_cached_across_fork", "C08", "mchap/application/baseclass.py",
+     "                    with pysam.AlignmentFile(\n                        path, reference_filename=self.ref\n                    ) as alignment_file:\n",
+     "                    _hc = globals().setdefault('_HANDLE_CACHE', {})\n                    if path not in _hc:\n                        _hc[path] = pysam.AlignmentFile(path, reference_filename=self.ref)\n                    if True:\n                        alignment_file = _hc[path]\n",
+     "alignment files opened once per OS process and re-used; a handle opened by earlier work in the parent is shared by forked workers (one kernel offset)"),
 ]
 
 
